@@ -98,6 +98,16 @@ def run(ctx):
                             if v is True and isinstance(a, tuple) and a[0] == "in" and a[1] == k and isinstance(a[2], tuple) and a[2][0] == "field":
                                 conds.add(a[2][2])
                     scans.append(conds)
+        for a, v in fx.guards_before(e):
+            if v is False and isinstance(a, tuple) and a and a[0] == "call" and method_name(a[1]) == "any":
+                el = tables.any_scan(ctx.body, a)
+                if not el.problems and isinstance(el.iter_term, tuple) and el.iter_term[0] == "iter" and list_of(el.iter_term[1]) == "AM":
+                    conds = set()
+                    for gs in el.set_paths:
+                        for aa, vv in gs:
+                            if vv is True and isinstance(aa, tuple) and aa[0] == "in" and aa[1] == k and isinstance(aa[2], tuple) and aa[2][0] == "field":
+                                conds.add(aa[2][2])
+                    scans.append(conds)
         ck.ob("C02-R5", np_.path, "pass-through-press-only-when-no-active-mapping-mentions-the-key", {"from", "to"} in scans or any(s >= {"from", "to"} for s in scans),
               site=tx.site(), detail="scans of active_mappings left by exhaustion: %s" % scans)
     # the flag is set on every path that fires a mapping: the call and the pass-through press never share a path
